@@ -268,13 +268,22 @@ func HarnessC18NoState() {
 		// also the prefix of a longer statement: a valid INSERT cut before its end
 		text1 = `insert data into ?g { /u<a> "p"@[] /u<b> . ` + text1
 	}
-	text2 := c18Corpus[verif.Choice("second", len(c18Corpus))]
+	var text2 string
+	if i := verif.Param("SECOND", -1); i >= 0 {
+		text2 = c18Corpus[i]
+	} else {
+		text2 = c18Corpus[verif.Choice("second", len(c18Corpus))]
+	}
 	shared, err := grammar.NewParser(grammar.SemanticBQL())
 	verif.Assume(err == nil)
 	var st2 *semantic.Statement
 	var err1, err2 error
 	if !noPanic("C18/nostate/no-panic", func() {
-		err1 = shared.Parse(grammar.NewLLk(text1, 1), &semantic.Statement{})
+		// REPEAT > 1: the same first statement many times over (whatever a statement
+		// leaves behind must not add up either)
+		for i := verif.Param("REPEAT", 1); i > 0; i-- {
+			err1 = shared.Parse(grammar.NewLLk(text1, 1), &semantic.Statement{})
+		}
 		st2 = &semantic.Statement{}
 		err2 = shared.Parse(grammar.NewLLk(text2, 1), st2)
 	}) {
@@ -430,4 +439,54 @@ var c18KnownLeaks = map[string]bool{
 	// a predicate bound followed by AT whose bindings are cut short by the rejection: the predicate hook keeps waiting
 	`select ?x from ?x where { /u<a> "p"@[2006-01-02T15:04:05Z,2007-01-02T15:04:05Z] at "1"^^type:int64 } ;`:         true,
 	`select ?x from ?x where { /u<a> "p"@[2006-01-02T15:04:05Z,2007-01-02T15:04:05Z] at ?x , ?x "1"^^type:int64 } ;`: true,
+}
+
+// C18 (c''): nothing adds up: the first statement - a symbolic token sequence
+// of up to L tokens as in HarnessC18NoState, optionally behind a cut-off INSERT
+// - is lexed once and its tokens are parsed REPEAT times by one parser; the
+// corpus statement that follows must be accepted with the meaning a fresh
+// parser gives it.  (Whatever a rejected statement leaves behind per attempt -
+// a nesting counter, a list - is multiplied until a bound trips.)
+func HarnessC18Accumulate() {
+	L := verif.Param("L", 2)
+	n := 1 + verif.Choice("len", L)
+	toks := symTokens(n)
+	plain, err := grammar.NewParser(grammar.BQL())
+	verif.Assume(err == nil)
+	llk := grammar.NewLLkFromTokens(toks, 1)
+	perr := plain.Parse(llk, &semantic.Statement{})
+	text1 := pinnedText(inspected(toks, llk, perr))
+	if verif.Choice("trailing", 2) == 1 {
+		text1 = `insert data into ?g { /u<a> "p"@[] /u<b> . ` + text1
+	}
+	var toks1 []lexer.Token
+	for t := range lexer.New(text1, 0) {
+		toks1 = append(toks1, t)
+	}
+	text2 := c18Corpus[verif.Param("SECOND", 0)]
+	shared, err := grammar.NewParser(grammar.SemanticBQL())
+	verif.Assume(err == nil)
+	var st2 *semantic.Statement
+	var err1, err2 error
+	if !noPanic("C18/accumulate/no-panic", func() {
+		for i := verif.Param("REPEAT", 600); i > 0; i-- {
+			err1 = shared.Parse(grammar.NewLLkFromTokens(toks1, 1), &semantic.Statement{})
+		}
+		st2 = &semantic.Statement{}
+		err2 = shared.Parse(grammar.NewLLk(text2, 1), st2)
+	}) {
+		return
+	}
+	fresh, ferr := parseText(grammar.SemanticBQL(), text2)
+	verif.Reach("parsed")
+	if err1 != nil {
+		verif.Class(rejectedClass(text1))
+	} else {
+		verif.Class("after-an-accepted-statement")
+	}
+	verif.Assert((err2 == nil) == (ferr == nil), "C18/accumulate/same-verdict")
+	if err2 == nil && ferr == nil {
+		verif.Assert(fingerprint(st2) == fingerprint(fresh), "C18/accumulate/same-meaning")
+	}
+	verif.Class("")
 }
